@@ -39,15 +39,12 @@ SD = "Scmp"
 KIND_OF_TYPE = {1: "DestUnreach", 2: "PacketTooBig", 4: "ParamProblem", 5: "ExtIfDown", 6: "IntConnDown"}
 
 # switches of Scmp.tla as the pinned tree behaves (see known_findings.d/C14.json)
-PINNED = {"VERIFY_CKSUM": "TRUE", "UNK_ERR_IS_ERR": "TRUE", "ROUTER_VERIFY_CKSUM": "FALSE"}
+PINNED = {"VERIFY_CKSUM": "TRUE", "UNK_ERR_IS_ERR": "TRUE", "ROUTER_VERIFY_CKSUM": "TRUE"}
 IDEAL = {"VERIFY_CKSUM": "TRUE", "UNK_ERR_IS_ERR": "TRUE", "ROUTER_VERIFY_CKSUM": "TRUE"}
 
-TABLE_INV = {
-    "quote": "QuoteBounded QuoteIsPrefixLen QuoteMaximal",
-    "quote_dense": "QuoteBounded QuoteIsPrefixLen QuoteMaximal",
-    "reply": "EchoAnswered NoReplyToErrorOrMalformed ErrorsNotified AtMostOneReply",
-    "router": "RouterNeverAnswersError RouterEchoAnswered RouterEchoNoReplyToErrorOrMalformed",
-}
+ALL_KINDS = '{"req", "rep", "treq", "trep", "err", "uerr", "uinfo", "bad", "dgram"}'
+TABLE_INV = ("QuoteBounded QuoteIsPrefixLen QuoteMaximal EchoAnswered NoReplyToErrorOrMalformed ErrorsNotified AtMostOneReply "
+             "RouterNeverAnswersError RouterEchoAnswered")
 
 
 def sw(d):
@@ -60,15 +57,17 @@ def cfg(c, name, text):
     return p
 
 
-def tables_cfg(table, gen, sws, brokenq="FALSE", inv=None):
-    inv = TABLE_INV[table] if inv is None else inv
-    return ("SPECIFICATION Spec\nCONSTANTS\n  TABLE = \"%s\"\n  GEN = %s\n  BROKENQ = %s\n%sINVARIANTS %s %s\nCHECK_DEADLOCK FALSE\n"
-            % (table, gen, brokenq, sw(sws), inv, "Emit" if gen == "TRUE" else ""))
+def tables_cfg(tables, gen, sws):
+    # RouterEchoNoReplyToErrorOrMalformed holds only when the router verifies the checksum (open finding otherwise)
+    inv = TABLE_INV + (" RouterEchoNoReplyToErrorOrMalformed" if sws["ROUTER_VERIFY_CKSUM"] == "TRUE" else "")
+    return ("SPECIFICATION Spec\nCONSTANTS\n  TABLES = {%s}\n  GEN = %s\n%sINVARIANTS %s %s\nCHECK_DEADLOCK FALSE\n"
+            % (", ".join('"%s"' % t for t in tables), gen, sw(sws), inv, "Emit" if gen == "TRUE" else ""))
 
 
-def exchange_cfg(maxorig, answer_errors, sws, extra_inv="", gen="FALSE"):
-    return ("SPECIFICATION Spec\nCONSTANTS\n  MAXORIG = %d\n  ANSWER_ERRORS = %s\n  GEN = %s\n%sINVARIANTS NoErrorLoop NoReplyToMalformed EchoFaithful AtMostOneAnswer ChainBounded TotalBounded %s %s\n"
-            "PROPERTY Termination\nCHECK_DEADLOCK FALSE\n" % (maxorig, answer_errors, gen, sw(sws), extra_inv, "Emit" if gen == "TRUE" else ""))
+def exchange_cfg(maxorig, answer_errors, sws, extra_inv="", gen="FALSE", kinds=ALL_KINDS):
+    return ("SPECIFICATION Spec\nCONSTANTS\n  MAXORIG = %d\n  ANSWER_ERRORS = %s\n  GEN = %s\n  Kinds = %s\n%s"
+            "INVARIANTS NoErrorLoop NoReplyToMalformed EchoFaithful RouterServeFaithful AtMostOneAnswer ChainBounded TotalBounded %s %s\n"
+            "PROPERTY Termination\nCHECK_DEADLOCK FALSE\n" % (maxorig, answer_errors, gen, kinds, sw(sws), extra_inv, "Emit" if gen == "TRUE" else ""))
 
 
 def socket_cfg(maxin, gen, sws, drop="FALSE", echo="TRUE"):
@@ -136,25 +135,28 @@ def run(c):
     evaluations = 0
     replayed = 0
 
-    # ------------------------------------------------------------------ 1+2a quote table
-    r = c.tlc(SD, "MC_ScmpTables", cfg=cfg(c, "t_quote.cfg", tables_cfg("quote", "TRUE", IDEAL)), timeout=1500)
-    design_violations(c, r, "MC_ScmpTables/quote")
-    qcells = c.printed_json(r, "CELL")
-    if not qcells:
-        c.fail_tool("quote table: TLC printed no cells")
-    rb = c.tlc(SD, "MC_ScmpTables", cfg=cfg(c, "t_quote_broken.cfg", tables_cfg("quote", "FALSE", IDEAL, brokenq="TRUE", inv="QuoteBounded")),
-               expect_violation=True, coverage=False, timeout=900)
-    self_check(c, rb, "QuoteBounded", "BROKENQ=TRUE (budget ignores the SCMP header)")
+    # ------------------------------------------------------------------ 1 decision tables: ONE TLC run (MC + generation)
+    tables = ["quote", "reply", "router"] + (["quote_dense"] if thorough else [])
+    r = c.tlc(SD, "MC_ScmpTables", cfg=cfg(c, "tables.cfg", tables_cfg(tables, "TRUE", PINNED)), timeout=6000)
+    design_violations(c, r, "MC_ScmpTables (switches of the pinned tree)")
+    if any("Assumption" in l for l in r.error_lines):
+        c.fail_tool("oracle self-check failed: an ASSUME SelfCheck* of MC_ScmpTables is false (see %s)" % r.out_path)
+    allcells = c.printed_json(r, "CELL")
+    qcells = [x for x in allcells if x["tab"] in ("quote", "quote_dense")]
+    rcells = [x for x in allcells if x["tab"] == "reply"]
+    ocells = [x for x in allcells if x["tab"] == "router"]
+    if not qcells or not rcells or not ocells:
+        c.fail_tool("MC_ScmpTables printed %d/%d/%d quote/reply/router cells" % (len(qcells), len(rcells), len(ocells)))
+    if PINNED != IDEAL:
+        # the P-layer must hold on the I-layer with every switch at its ideal value
+        ri = c.tlc(SD, "MC_ScmpTables", cfg=cfg(c, "tables_ideal.cfg", tables_cfg(["reply", "router"], "FALSE", IDEAL)), timeout=6000, coverage=False)
+        design_violations(c, ri, "MC_ScmpTables (ideal switches)")
 
-    if thorough:
-        # every offender length 0..9216 for the header sizes the SNAP gateway produces (and the sciparse encoder on the same cells)
-        rd = c.tlc(SD, "MC_ScmpTables", cfg=cfg(c, "t_quote_dense.cfg", tables_cfg("quote_dense", "TRUE", IDEAL)), timeout=2400, coverage=False)
-        design_violations(c, rd, "MC_ScmpTables/quote_dense")
-        qcells = qcells + c.printed_json(rd, "CELL")
+    # ------------------------------------------------------------------ 2a quote cells -> every constructor
     inp = os.path.join(c.work, "quote_in.ndjson")
     outp = os.path.join(c.work, "quote_out.ndjson")
     write_ndjson(inp, qcells)
-    rc, so = c.sh([binp, "quote", inp, outp], timeout=3000)
+    rc, so = c.sh([binp, "quote", inp, outp], timeout=9000)
     if rc != 0:
         c.fail_tool("quote harness failed rc=%s %s" % (rc, (so or "")[-400:]))
     ctor_count = {}
@@ -197,15 +199,7 @@ def run(c):
             c.fail_tool("vacuous: constructor family %s was never exercised" % f)
     c.sample({"quote_cell": qcells[len(qcells) // 2], "constructors": sorted(ctor_count)})
 
-    # ------------------------------------------------------------------ 1+2b reply table
-    r = c.tlc(SD, "MC_ScmpTables", cfg=cfg(c, "t_reply.cfg", tables_cfg("reply", "TRUE", PINNED)), timeout=1500)
-    design_violations(c, r, "MC_ScmpTables/reply")
-    rcells = c.printed_json(r, "CELL")
-    if not rcells:
-        c.fail_tool("reply table: TLC printed no cells")
-    rb = c.tlc(SD, "MC_ScmpTables", cfg=cfg(c, "t_reply_broken.cfg", tables_cfg("reply", "FALSE", dict(IDEAL, VERIFY_CKSUM="FALSE"), inv="NoReplyToErrorOrMalformed")),
-               expect_violation=True, coverage=False, timeout=900)
-    self_check(c, rb, "NoReplyToErrorOrMalformed", "VERIFY_CKSUM=FALSE (receivers do not verify the checksum)")
+    # ------------------------------------------------------------------ 2b reply cells -> handlers
     # echo requests: every reversible path kind (quantifier "all paths on the request")
     cases = []
     for cell in rcells:
@@ -217,7 +211,7 @@ def run(c):
     inp = os.path.join(c.work, "reply_in.ndjson")
     outp = os.path.join(c.work, "reply_out.ndjson")
     write_ndjson(inp, cases)
-    rc, so = c.sh([binp, "reply", inp, outp], timeout=3000)
+    rc, so = c.sh([binp, "reply", inp, outp], timeout=9000)
     if rc != 0:
         c.fail_tool("reply harness failed rc=%s %s" % (rc, (so or "")[-400:]))
     st = {"fed": 0, "infeasible": 0, "raw_rejected": 0, "must_answer": 0, "must_not_answer_fed": 0, "must_notify": 0}
@@ -276,19 +270,7 @@ def run(c):
         c.fail_tool("vacuous reply table: %s" % st)
     c.sample({"reply_cell": next(x for x in cases if x["must_answer"])})
 
-    # ------------------------------------------------------------------ 1+2c router table
-    r = c.tlc(SD, "MC_ScmpTables", cfg=cfg(c, "t_router.cfg", tables_cfg("router", "FALSE", IDEAL)), timeout=1500)
-    design_violations(c, r, "MC_ScmpTables/router")
-    # generation with the switches of the pinned tree; the invariant the pinned tree is known to violate is the finding below
-    pinned_inv = "RouterNeverAnswersError RouterEchoAnswered" + (" RouterEchoNoReplyToErrorOrMalformed" if PINNED["ROUTER_VERIFY_CKSUM"] == "TRUE" else "")
-    r = c.tlc(SD, "MC_ScmpTables", cfg=cfg(c, "t_router_gen.cfg", tables_cfg("router", "TRUE", PINNED, inv=pinned_inv)), timeout=1500, coverage=False)
-    design_violations(c, r, "MC_ScmpTables/router (pinned switches)")
-    ocells = c.printed_json(r, "CELL")
-    if not ocells:
-        c.fail_tool("router table: TLC printed no cells")
-    rb = c.tlc(SD, "MC_ScmpTables", cfg=cfg(c, "t_router_broken.cfg", tables_cfg("router", "FALSE", dict(IDEAL, UNK_ERR_IS_ERR="FALSE"), inv="RouterNeverAnswersError")),
-               expect_violation=True, coverage=False, timeout=900)
-    self_check(c, rb, "RouterNeverAnswersError", "UNK_ERR_IS_ERR=FALSE (unknown error types are answered)")
+    # ------------------------------------------------------------------ 2c router cells -> simulated network
     keep_types = set(range(256)) if thorough else {0, 1, 2, 3, 4, 5, 6, 7, 64, 100, 127, 128, 129, 130, 131, 132, 200, 255}
     rcases = []
     for cell in ocells:
@@ -306,7 +288,7 @@ def run(c):
     inp = os.path.join(c.work, "router_in.ndjson")
     outp = os.path.join(c.work, "router_out.ndjson")
     write_ndjson(inp, rcases)
-    rc, so = c.sh([binp, "router", inp, outp], timeout=3000)
+    rc, so = c.sh([binp, "router", inp, outp], timeout=9000)
     if rc != 0:
         c.fail_tool("router harness failed rc=%s %s" % (rc, (so or "")[-400:]))
     rst = {"cases": 0, "errors_returned": 0, "echo_replies": 0, "must_not_answer": 0}
@@ -369,6 +351,11 @@ def run(c):
                     bad = [k for k in ("echo_same", "to_requester", "weakly_reversed", "ck", "complete") if not m.get(k, False)]
                     if bad:
                         c.violation("EchoUnfaithful:pocketscion-router:%s" % bad[0], "router echo reply fails %s (%s)" % (bad, tag), rep)
+            tr = [m for m in x["returned"] if m.get("t") == 131]
+            if cell.get("reply_type") == 131 and (len(tr) != 1 or not all(tr[0].get(k, False) for k in ("echo_same", "tr_fields_ok", "to_requester", "weakly_reversed", "ck"))):
+                c.drift("router %s: traceroute reply %s does not match the I-layer (same id/seq, router ISD-AS 1-2, interface 2, to requester, reversed path)" % (tag, tr))
+            elif cell.get("reply_type") == 131:
+                rst["traceroute_replies"] = rst.get("traceroute_replies", 0) + 1
             if x["answers"] != cell["echo_answers"]:
                 c.drift("router %s: %d packets returned by the router's echo service, I-layer %d" % (tag, x["answers"], cell["echo_answers"]))
     replayed += len(rcases)
@@ -380,24 +367,27 @@ def run(c):
     c.sample({"router_case": rcases[len(rcases) // 3]})
 
     # ------------------------------------------------------------------ 1d exchange model (no error loops, termination)
-    r = c.tlc(SD, "ScmpExchange", cfg=cfg(c, "exchange.cfg", exchange_cfg(2, "FALSE", PINNED, gen="TRUE")), timeout=2400)
+    quick_kinds = '{"req", "rep", "treq", "err", "uerr", "bad", "dgram"}'
+    r = c.tlc(SD, "ScmpExchange", cfg=cfg(c, "exchange.cfg", exchange_cfg(2, "FALSE", PINNED, gen="TRUE", kinds=ALL_KINDS if thorough else quick_kinds)), timeout=6000)
     design_violations(c, r, "ScmpExchange")
     if r.ok:
-        c.require_coverage(r, ["Originate", "LoseAny", "DeliverAny", "RouterFailAny"])
+        c.require_coverage(r, ["Originate", "LoseAny", "DeliverAny", "RouterFailAny", "RouterServeAny"])
     xbeh = [{"log": l} for l in c.printed_json(r, "REPLAY")]
     if not xbeh:
         c.fail_tool("exchange model: TLC printed no finished exchanges")
     if thorough:
-        r3 = c.tlc(SD, "ScmpExchange", cfg=cfg(c, "exchange3.cfg", exchange_cfg(3, "FALSE", IDEAL)), timeout=3000, coverage=False)
+        r3 = c.tlc(SD, "ScmpExchange", cfg=cfg(c, "exchange3.cfg", exchange_cfg(3, "FALSE", IDEAL, kinds='{"req", "treq", "err", "uerr", "bad", "dgram"}')), timeout=12000, coverage=False)
         design_violations(c, r3, "ScmpExchange (3 originated messages)")
     # the simulated network delivers its own error messages at once: replay the exchanges in which every router-made message is delivered
-    xbeh = [b for b in xbeh if all(m["fate"] == "delivered" for m in b["log"] if m["by"] == "router")]
+    # (and the router-alert scenario of the harness lies on the path from host A)
+    xbeh = [b for b in xbeh if all(m["fate"] == "delivered" for m in b["log"] if m["by"] == "router")
+            and all(m["src"] == "A" for m in b["log"] if m["fate"] == "served")]
     if not thorough:
-        xbeh = [b for i, b in enumerate(xbeh) if i % 3 == c.seed % 3 or len(b["log"]) >= 4]
+        xbeh = [b for i, b in enumerate(xbeh) if i % 4 == c.seed % 4 or len(b["log"]) >= 5]
     inp = os.path.join(c.work, "exchange_in.ndjson")
     outp = os.path.join(c.work, "exchange_out.ndjson")
     write_ndjson(inp, xbeh)
-    rc, so = c.sh([binp, "exchange", inp, outp], timeout=3000)
+    rc, so = c.sh([binp, "exchange", inp, outp], timeout=9000)
     if rc != 0:
         c.fail_tool("exchange harness failed rc=%s %s" % (rc, (so or "")[-400:]))
 
@@ -438,6 +428,13 @@ def run(c):
                 c.violation("ErrorLoop:%s:%s" % (m["by"], pk), "an SCMP error (%s) caused a %s message from the %s (%s)" % (pk, m["k"], m["by"], tag), rep)
             elif pk == "bad" and m["by"] == "host":
                 c.violation("ErrorOrMalformedAnswered:exchange:wrong-checksum", "a host answered a malformed SCMP message with %s (%s)" % (m["k"], tag), rep)
+            elif m["by"] == "router" and m.get("served_ok") is not None:
+                xst["served"] = xst.get("served", 0) + 1
+                if not m["served_ok"]:
+                    if pk == "req":
+                        c.violation("EchoUnfaithful:exchange-router", "the router's reply to an echo request addressed to it is not faithful (%s)" % tag, rep)
+                    else:
+                        c.drift("%s: the router's traceroute reply does not match its request" % tag)
             elif m["by"] == "host" and pk == "req":
                 xst["replies"] += 1
                 if m["k"] != "rep" or not m["faithful"]:
@@ -456,23 +453,23 @@ def run(c):
         c.drift("exchange replay saw %s" % xst)
     if xbeh:
         c.sample({"exchange": xbeh[len(xbeh) // 2]["log"]})
-    rb = c.tlc(SD, "ScmpExchange", cfg=cfg(c, "exchange_broken.cfg", exchange_cfg(2, "TRUE", IDEAL, "ChainLimit")), expect_violation=True, coverage=False, timeout=900)
+    rb = c.tlc(SD, "ScmpExchange", cfg=cfg(c, "exchange_broken.cfg", exchange_cfg(2, "TRUE", IDEAL, "ChainLimit")), expect_violation=True, coverage=False, timeout=3600)
     if not ({"NoErrorLoop", "ChainLimit", "ChainBounded", "TotalBounded"} & set(rb.violated)):
         c.fail_tool("oracle self-check failed: ANSWER_ERRORS=TRUE violates nothing (%s)" % rb.violated)
 
     # ------------------------------------------------------------------ 1+2e socket receive path
     maxin = 4 if thorough else 3
-    r = c.tlc(SD, "MC_ScmpSocket", cfg=cfg(c, "socket.cfg", socket_cfg(maxin, "TRUE", PINNED)), timeout=2400)
+    r = c.tlc(SD, "MC_ScmpSocket", cfg=cfg(c, "socket.cfg", socket_cfg(maxin, "TRUE", PINNED)), timeout=7200)
     design_violations(c, r, "MC_ScmpSocket")
     beh = c.printed_json(r, "REPLAY")
     if not beh:
         c.fail_tool("socket model: TLC printed no behaviours")
-    rb = c.tlc(SD, "MC_ScmpSocket", cfg=cfg(c, "socket_broken.cfg", socket_cfg(3, "FALSE", IDEAL, drop="TRUE")), expect_violation=True, coverage=False, timeout=900)
+    rb = c.tlc(SD, "MC_ScmpSocket", cfg=cfg(c, "socket_broken.cfg", socket_cfg(3, "FALSE", IDEAL, drop="TRUE")), expect_violation=True, coverage=False, timeout=3600)
     self_check(c, rb, "DatagramsUnaffected", "DROP_AFTER_SCMP=TRUE")
     inp = os.path.join(c.work, "socket_in.ndjson")
     outp = os.path.join(c.work, "socket_out.ndjson")
     write_ndjson(inp, beh)
-    rc, so = c.sh([binp, "socket", inp, outp], timeout=3000)
+    rc, so = c.sh([binp, "socket", inp, outp], timeout=9000)
     if rc != 0:
         c.fail_tool("socket harness failed rc=%s %s" % (rc, (so or "")[-400:]))
     sst = {"sequences": 0, "datagrams": 0, "errors": 0, "requests": 0}
@@ -519,7 +516,7 @@ def run(c):
     # ------------------------------------------------------------------ 3 recorded executions -> Trace_Scmp
     ev = os.path.join(c.work, "trace.ndjson")
     resj = os.path.join(c.work, "trace.json")
-    rc, so = c.sh([binp, "record", ev, resj], timeout=3000)
+    rc, so = c.sh([binp, "record", ev, resj], timeout=9000)
     if rc != 0:
         c.fail_tool("record harness failed rc=%s %s" % (rc, (so or "")[-400:]))
     res = json.load(open(resj))
@@ -531,7 +528,7 @@ def run(c):
     c.cov["router_cases"]["quotes_validated_by_tlc"] = len(router_quotes)
     nev = sum(1 for _ in open(ev)) - 1
     tcfg = cfg(c, "trace.cfg", trace_cfg(PINNED))
-    r = c.tlc(SD, "Trace_Scmp", cfg=tcfg, mode="trace", env={"TRACE": ev}, timeout=3000)
+    r = c.tlc(SD, "Trace_Scmp", cfg=tcfg, mode="trace", env={"TRACE": ev}, timeout=9000)
     evaluations += nev
     c.cov["trace_stats"] = dict(res["stats"], events=nev)
     pviol = [i for i in r.violated if i in TRACE_P_INV]
@@ -560,7 +557,7 @@ def run(c):
             mut[k] = mut[k].replace('"deliver":true', '"deliver":false')
             mev = os.path.join(c.work, "trace_mutated.ndjson")
             open(mev, "w").write("\n".join(mut) + "\n")
-            rm = c.tlc(SD, "Trace_Scmp", cfg=tcfg, mode="trace", env={"TRACE": mev}, timeout=900, expect_violation=True)
+            rm = c.tlc(SD, "Trace_Scmp", cfg=tcfg, mode="trace", env={"TRACE": mev}, timeout=3600, expect_violation=True)
             if "DatagramsUnaffected" not in rm.violated:
                 c.fail_tool("binding self-check failed: a recorded run with a dropped datagram was not flagged (%s)" % rm.violated)
     c.sample({"trace_events": "quote / handle / router / reset+arrive+step, see spec/Scmp/Trace_Scmp.tla", "events": nev})
